@@ -259,6 +259,52 @@ func checkC11(c *Ctx) {
 	c.c11Add(m)
 	c.c11Remove(m)
 	c.c11Purge(m)
+	c.c11AbsentIndex(m)
+}
+
+// c11AbsentIndex: the crash-safe protocol leaves, at some crash points, a mailbox directory
+// without an index (first delivery before the first rename; removeDir after unlinking the
+// index). Readers must take exactly "the INDEX is absent" for "empty mailbox": an existence
+// test on anything else turns those states into errors that make the mailbox unusable and
+// abort VisitMailboxes.
+func (c *Ctx) c11AbsentIndex(m *fsModel) {
+	r, p := c.R, c.P
+	r.Rule("C11/READ/absent-index", "on the index load path every existence probe (os.Stat/Lstat) is made on mbox.indexPath")
+	readIndex := p.Method("pkg/storage/file", "mbox", "readIndex")
+	if readIndex == nil {
+		return
+	}
+	n := 0
+	ord := map[string]int{}
+	var fns []*ssa.Function
+	for fn := range p.SyncReach(readIndex) {
+		if eng.FuncPkgPath(fn) == eng.Mod+"/pkg/storage/file" {
+			fns = append(fns, fn)
+		}
+	}
+	sortFuncs(fns)
+	for _, fn := range fns {
+		eng.EachInstr(fn, func(in ssa.Instruction) {
+			call, ok := in.(*ssa.Call)
+			if !ok {
+				return
+			}
+			switch eng.CalleeName(call.Common()) {
+			case "os.Stat", "os.Lstat":
+			default:
+				return
+			}
+			n++
+			cls := m.pathClass(call.Call.Args[0], 0)
+			cons := siteCons(p, in, ord, "probe")
+			if cls == "index" {
+				r.Ok("C11/READ/absent-index", cons, p.InstrPos(in), "existence probe on the index path")
+			} else {
+				r.Bad("C11/READ/absent-index", cons, p.InstrPos(in), "the load path probes the existence of a path of class %q instead of the index: after a crash that left the directory without an index (first delivery, or removeDir after unlinking the index) the mailbox no longer reads as empty — listing, delivery and VisitMailboxes fail on it", cls)
+			}
+		})
+	}
+	r.Floor("C11/READ/absent-index", "existence probes on the index load path", n, 1)
 }
 
 // succeedsOnlyAfter: every return of g whose error result may be nil either returns the
@@ -415,6 +461,38 @@ func (c *Ctx) c11Add(m *fsModel) {
 			}
 		}
 		return nil
+	}
+	// once the raw file exists nothing may remove the mailbox directory before the index
+	// names the new message (an eviction that empties the mailbox removes the directory)
+	{
+		var start ssa.Instruction
+		eng.EachInstr(add, func(in ssa.Instruction) {
+			call, ok := in.(*ssa.Call)
+			if !ok {
+				return
+			}
+			if g := eng.StaticCallee(call.Common()); g == W && W != add {
+				start = in
+			}
+			if W == add && eng.CalleeName(call.Common()) == "os.Create" && m.pathClass(call.Call.Args[0], 0) == "raw" {
+				start = in
+			}
+		})
+		if start != nil {
+			rmDir := func(in ssa.Instruction) bool {
+				call, ok := in.(*ssa.Call)
+				if !ok || in == ssa.Instruction(widx) {
+					return false
+				}
+				g := eng.StaticCallee(call.Common())
+				return g != nil && eng.FuncPkgPath(g) == eng.Mod+"/pkg/storage/file" && (g == m.removeDir || reachesSync(g, m.removeDir))
+			}
+			if hit := (&eng.Search{Target: rmDir, Avoid: func(in ssa.Instruction) bool { return in == ssa.Instruction(widx) }}).After(start); hit != nil {
+				r.Bad("C11/ORDER/add", cons+":no-removal-in-between", p.InstrPos(hit), "between writing the raw file and updating the index AddMessage calls %s, which can remove the mailbox directory (when it empties the mailbox, e.g. cap 1): the raw file just written is deleted and the index then lists a message without content", eng.CalleeName(hit.(*ssa.Call).Common()))
+			} else {
+				r.Ok("C11/ORDER/add", cons+":no-removal-in-between", p.InstrPos(start), "nothing between the raw write and the index update can remove the mailbox directory")
+			}
+		}
 	}
 	if W == add {
 		create, prob := c.rawWriteSeq(m, add, widx)
